@@ -93,6 +93,9 @@ def run_interp(prog, name, vals):
     return out
 
 
+SYMBOLIC_SKIP = {"t_successors_from_fn": "loop bound depends on a symbolic value: no finite set of paths (concrete mode only)"}
+
+
 def run_symbolic(prog, name, vals, max_paths=400):
     """Run the function on SYMBOLIC inputs of the same length, then select the path whose condition holds for `vals` and
     evaluate its result terms there: exercises the symbolic branches of the models (decisions, lazily decided orderings,
@@ -151,12 +154,20 @@ def main_symbolic(prefix=""):
     names = sorted({n for (n, _) in nat if n.startswith(prefix)})
     verdicts = {}
     for n in names:
+        if n in SYMBOLIC_SKIP:
+            verdicts[n] = ("skipped", SYMBOLIC_SKIP[n])
+            print("%-34s %-12s %s" % (n, "skipped", SYMBOLIC_SKIP[n]), flush=True)
+            continue
         status, detail, npaths, checked, skipped = "ok", "", 0, 0, 0
+        t_fn = __import__("time").time()
         for i, vals in enumerate(INPUTS):
             if len(vals) > 3:
                 continue  # symbolic runs fork on every comparison: short inputs only
+            if __import__("time").time() - t_fn > 90:
+                skipped += 1  # time budget per function
+                continue
             try:
-                got, k = run_symbolic(prog, n, vals, max_paths=300)
+                got, k = run_symbolic(prog, n, vals, max_paths=150)
                 npaths = max(npaths, k)
                 checked += 1
             except PathLimit:
@@ -182,7 +193,8 @@ def main_symbolic(prefix=""):
         if status == "ok" and checked == 0:
             status = "unsupported"
             detail = "every input exceeded the path limit"
-        verdicts[n] = (status, (detail + " [%d inputs checked, %d skipped for path count, max %d paths]" % (checked, skipped, npaths)).strip())
+        verdicts[n] = (status, (detail + " [%d inputs checked, %d skipped for path count / time, max %d paths]" % (checked, skipped, npaths)).strip())
+        print("%-34s %-12s %s" % (n, verdicts[n][0], verdicts[n][1]), flush=True)
     return verdicts
 
 
@@ -225,8 +237,6 @@ def main(prefix=""):
 if __name__ == "__main__":
     if len(sys.argv) > 1 and sys.argv[1] == "--symbolic":
         v = main_symbolic(sys.argv[2] if len(sys.argv) > 2 else "")
-        for n, (s_, d) in sorted(v.items()):
-            print("%-34s %-12s %s" % (n, s_, d))
         cnt = {}
         for s_, _ in v.values():
             cnt[s_] = cnt.get(s_, 0) + 1
